@@ -45,6 +45,8 @@ type Rec struct {
 	HReturned bool
 	HCtx      context.Context
 	HMD       metadata.MD
+	hTarget   *Msg
+	cTarget   *Msg
 }
 
 // World is the scripted service plus the book-keeping shared with oracles.
@@ -141,7 +143,12 @@ func (w *World) Stream(kind string, ss grpc.ServerStream) error {
 // ---------------------------------------------------------------- handler programs
 
 func hRecv(r *Rec, ss grpc.ServerStream) (string, error) {
-	m := new(Msg)
+	// one receive target per handler invocation, reused for every message (a hand-written
+	// receive loop): a message must fully replace what the previous one left in it
+	if r.hTarget == nil {
+		r.hTarget = new(Msg)
+	}
+	m := r.hTarget
 	if err := ss.RecvMsg(m); err != nil {
 		r.HRecvErr = err
 		return "", err
@@ -337,7 +344,10 @@ func CClose(r *Rec, cs grpc.ClientStream) error {
 
 // CRecvOne receives one message; on error it records the terminal error.
 func CRecvOne(r *Rec, cs grpc.ClientStream) error {
-	m := new(Msg)
+	if r.cTarget == nil {
+		r.cTarget = new(Msg) // reused for every message of the stream, like hRecv's
+	}
+	m := r.cTarget
 	if err := cs.RecvMsg(m); err != nil {
 		r.CErr = err
 		r.CTrailer = cs.Trailer() // permitted once RecvMsg has returned an error
